@@ -198,6 +198,7 @@ class Prog:
             self.norm_stats["annotated_assignments"] = n_ann
             self.norm_stats["constants_inlined"] = normalise.inline_constants(trees)
             self.norm_stats["accumulator_loops_folded"] = sum(normalise.fold_accumulator_loops(t) for t in trees.values())
+            self.norm_stats["single_use_temporaries_inlined"] = sum(normalise.inline_single_use_temps(t) for t in trees.values())
         self._index()
         self._resolve_bases()
 
@@ -1118,7 +1119,7 @@ class Prog:
                     subs += [T("cls", k.qual) for k in self.direct_subclasses(self.classes[b.name])]
             if subs:
                 return T("list", args=(union(*subs),))
-        ft = self.infer(f, fn, mod, _d) if isinstance(f, (ast.Name, ast.Attribute)) else UNKNOWN
+        ft = self.infer(f, fn, mod, _d) if isinstance(f, (ast.Name, ast.Attribute, ast.IfExp)) else UNKNOWN
         ctor = [T("inst", a.name) for a in ft.alts() if a.kind == "cls" and a.name in self.classes]
         if ctor and len(ctor) == len(ft.alts()):
             return union(*ctor)
@@ -1173,6 +1174,13 @@ class Prog:
             mod = fn.mod
         f = call.func
         out: list = []
+        if isinstance(f, ast.IfExp):  # (A if c else B)(...): either callee
+            for branch in (f.body, f.orelse):
+                alt = ast.copy_location(ast.Call(func=branch, args=call.args, keywords=call.keywords), call)
+                for c in self.resolve_call(alt, fn, mod):
+                    if c not in out:
+                        out.append(c)
+            return out
         if isinstance(f, ast.Name):
             # local variable holding a class / function?
             t = self.infer(f, fn, mod)
